@@ -67,3 +67,22 @@ META['C02'] = dict(
     note='Trusted: the model (anchored to RFC 7693/9106, FIPS-197, hashlib, AES-NI and all 10 published digests); the loose parts of spec ch.6 are pinned to upstream behaviour and validated only by those digests and by C09.',
     technique='property-based testing (rapidcheck) against an independent executable specification; cross-build / cross-process differential',
 )
+
+META['C09'] = dict(
+    text='Generated keys -> the eight generated programs are checked against a validity predicate (the operand rules native back-ends rely on), against an independent model of the generator '
+         'instruction for instruction, and executed in the interpreter and in the natively generated x86 code for generated register values. 16k keys (128k programs) quick / 1.6M keys thorough.',
+    note='Trusted: the model generator for oracle B (its under-specified parts are pinned to upstream and validated through the published digests); oracle A and C do not depend on it.',
+    technique='property-based testing (rapidcheck): validity predicate + reference model + interpreter/native differential',
+)
+META['C10'] = dict(
+    text='Generated reduced Argon2d instances through the very entry points cache initialisation uses, for the three fill implementations, and full 256 MiB caches with re-key sequences through the public API, '
+         'all compared byte for byte with an independent RFC 9106 model. 1.6k reduced + 16 full sequences (96 cache fills) quick; 100k + 192 thorough.',
+    note='Trusted: model/ref_argon2.cpp (reproduces the RFC 9106 Argon2d test vector with secret, associated data, 4 lanes and finalisation).',
+    technique='property-based testing (rapidcheck) against an independent reference model; n-version differential over three implementations',
+)
+META['C08'] = dict(
+    text='Generated (start,count) partitions and thread assignments for both dataset initialisers on a dataset whose pages are inaccessible except for the requested, canary-filled ranges; every requested '
+         'item compared with the light-mode computation and the specification model. 3k call sets quick / 200k + two complete datasets thorough. Schedules are whatever the OS produces for the generated thread assignment.',
+    note='Trusted: model item construction (ch.7.3) for the three-way comparison; thread interleavings are not controlled, only varied.',
+    technique='property-based testing (rapidcheck): differential (compiled/interpreted/light/model) + page-protection and canary invariants',
+)
